@@ -26,7 +26,11 @@ import (
 	"verifharness/internal/sx"
 )
 
-var plain = []string{"a", "b", "c", "d", "f", "g"}
+var plain = []string{"a", "b", "c", "d", "f", "g", "a", "b", "c", "d", "f", "g", "a", "b", "c", "d", "f", "g",
+	// legal names that merely contain dots
+	"notes..txt", "..hidden", "v1..", "a...b", "...", ".a", "a.", "x..y"}
+
+var anames = []string{"", "", "", "", "/", "sub", "/a", "..", "../outside", "a/../..", "/.."}
 
 type gen struct {
 	rng *prng.R
@@ -116,7 +120,7 @@ func sizeOf(t *twin, f *tfid) int64 {
 func (g *gen) next() drv.Op {
 	r := g.rng
 	if len(g.tw.fids) == 0 || r.Chance(1, 40) {
-		return drv.Op{Kind: "attach", Fid: g.freeFid()}
+		return drv.Op{Kind: "attach", Fid: g.freeFid(), Aname: anames[r.Intn(len(anames))]}
 	}
 	switch k := r.Intn(100); {
 	case k < 20: // walk
@@ -231,7 +235,7 @@ func max64(a, b int64) int64 {
 func main() {
 	r := rep.Open()
 	defer r.Close()
-	r.Rule = "each case is one ufs session of 25-55 calls (create, mkdir, open with all 256 mode bytes sampled, read/write at offsets around the file size, truncate, chmod, rename incl. into sub/parent directories and onto existing entries, remove, walk, stat, directory listing) on a fresh S/export with a twin S/twin driven by direct os calls, followed by a probe of every tree node through freshly walked fids. A case is non-trivial when at least one operation changed the host tree; distinct by canonical case text."
+	r.Rule = "each case is one ufs session of 25-55 calls (create, mkdir, open with all 256 mode bytes sampled, read/write at offsets around the file size, truncate, chmod, rename incl. into sub/parent directories and onto existing entries, remove, walk, stat, directory listing) on a fresh S/export with a twin S/twin driven by direct os calls, followed by a probe of every tree node through freshly walked fids. Names include legal dotted ones ('notes..txt', '..hidden', '...'); Tattach carries various anames; one session in four removes an open fid's file through a second fid and then Tremoves the first; after every clunk/remove/walk the process's descriptors into the export (/proc/self/fd) must equal the fids with a file open, and none may remain after Stop. A case is non-trivial when at least one operation changed the host tree; distinct by canonical case text."
 	rng := prng.New(r.Seed)
 
 	top, err := os.MkdirTemp("", "verif-c19-")
@@ -315,6 +319,17 @@ func main() {
 			if a, b := sx.String(res), sx.String(tres); a != b {
 				r.Fail("ufs."+o.Kind+".result", fmt.Sprintf("%s: ufs answered %s, the direct operation gives %s", what, trunc(a), trunc(b)), cs, nil)
 			}
+			if o.Kind == "clunk" || o.Kind == "remove" || o.Kind == "walk" {
+				nOpen := 0
+				for _, f := range fids {
+					if f.Open == 2 {
+						nOpen++
+					}
+				}
+				if fds := drv.FdsInto(sb.Export); len(fds) != nOpen {
+					r.Fail("ufs.fd-leak", fmt.Sprintf("%s: %d descriptors into the export are open, %d fids have a file open: %v", what, len(fds), nOpen, fds), cs, nil)
+				}
+			}
 			if d := drv.TreesEqual(tree, ttree); d != "" {
 				r.Fail("ufs."+o.Kind+".tree", fmt.Sprintf("%s: export and twin differ afterwards: %s", what, d), cs, nil)
 			}
@@ -330,7 +345,23 @@ func main() {
 			exec(drv.Op{Kind: "remove", Fid: 1})
 		}
 		n := crng.Range(25, 55)
+		leakAt := -1
+		if crng.Chance(1, 4) {
+			leakAt = crng.Intn(n)
+		}
 		for j := 0; j < n; j++ {
+			if j == leakAt {
+				// a fid with an open file; the file is removed through a second fid; Tremove on
+				// the first then fails - and must still release the open file
+				nm := plain[crng.Intn(len(plain))]
+				exec(drv.Op{Kind: "attach", Fid: 40, Aname: anames[crng.Intn(len(anames))]})
+				exec(drv.Op{Kind: "walk", Fid: 40, NewFid: 41})
+				exec(drv.Op{Kind: "create", Fid: 41, Name: nm, Perm: 0o644, Mode: 2})
+				exec(drv.Op{Kind: "walk", Fid: 40, NewFid: 42, Names: []string{nm}})
+				exec(drv.Op{Kind: "remove", Fid: 42})
+				exec(drv.Op{Kind: "remove", Fid: 41})
+				exec(drv.Op{Kind: "clunk", Fid: 40})
+			}
 			exec(g.next())
 		}
 		// ---- probe: every node through a freshly walked fid vs the host itself
@@ -382,6 +413,9 @@ func main() {
 		}
 		sess.Close()
 		tw.Close()
+		if fds := drv.FdsInto(sb.S); len(fds) > 0 && sess.Dead == "" {
+			r.Fail("ufs.fd-leak", fmt.Sprintf("after the session was stopped %d descriptors into the sandbox are still open: %v", len(fds), fds), sx.List(caseL), nil)
+		}
 		final := drv.Tree(sb.Export, true)
 		intact := sb.RootIntact() == "" && len(sb.Events()) == 0
 		obsL = append(obsL, sx.L(sx.Sym("final"), drv.ContentSexp(final), sx.L(sx.Sym("outside"), sx.Bool(intact))))
